@@ -165,6 +165,11 @@ func NewTemporal(id string, t time.Time) (*Predicate, error) {
 func (p *Predicate) UUID() uuid.UUID {
 	var buffer bytes.Buffer
 
+	// Tag the kind: objects box nodes, literals and predicates and index them
+	// by UUID. Node bytes start with '/', literal bytes with the literal type
+	// name followed by 0, so no predicate can hash the bytes of another kind.
+	buffer.WriteString("predicate")
+	buffer.WriteByte(0)
 	buffer.Write([]byte(p.id))
 	if p.anchor == nil {
 		buffer.WriteString("immutable")
